@@ -604,6 +604,98 @@ func (k *Kind[C]) Run(t *testing.T, ev *Ev, checks int) {
 	}
 }
 
+// RunConcurrent evaluates batches of generated cases on several goroutines at once.  The
+// functions under test in these kinds are pure; a case that passes alone but fails while other
+// cases are being evaluated exposes state shared between calls (caches, pooled buffers).  A
+// failing batch is re-evaluated sequentially first: if it fails there too it is an ordinary
+// violation of that case; otherwise the whole batch is the replay unit (kind "<name>-concurrent",
+// re-executed 300 times by --replay).
+func runConcurrent[C any](k *Kind[C], t *testing.T, ev *Ev, batches, size int) {
+	bk := concurrentKind(k)
+	flag.Set("rapid.checks", strconv.Itoa(batches))
+	flag.Set("rapid.seed", strconv.FormatUint(kindSeed(bk.Name), 10))
+	flag.Set("rapid.shrinktime", "5s")
+	flag.Set("rapid.nofailfile", "true")
+	var bestJS []byte
+	var bestMsg string
+	t.Run(bk.Name, func(st *testing.T) {
+		rapid.Check(st, func(rt *rapid.T) {
+			batch := make([]C, size)
+			for i := range batch {
+				batch[i] = k.Gen(rt)
+			}
+			o := &Obs{}
+			err := safeEval(bk.Eval, batch, o)
+			js, _ := json.Marshal(batch)
+			if err == nil {
+				o.NT()
+				o.Class(k.Prop + ":concurrent-batches")
+				ev.record(bk.Name, js, o)
+				return
+			}
+			var hb harnessBug
+			if errors.As(err, &hb) {
+				rt.Skip()
+			}
+			if bestJS == nil || len(js) <= len(bestJS) {
+				bestJS, bestMsg = js, err.Error()
+			}
+			rt.Fatalf("%s", firstLine(err.Error()))
+		})
+	})
+	if bestJS != nil {
+		ev.saveViolation(bk.Name, bestJS, bestMsg)
+	}
+}
+
+var concurrentKinds = map[string]any{}
+
+func concurrentKind[C any](k *Kind[C]) *Kind[[]C] {
+	name := k.Name + "-concurrent"
+	if v, ok := concurrentKinds[k.Prop+"/"+name]; ok {
+		return v.(*Kind[[]C])
+	}
+	bk := register(&Kind[[]C]{Prop: k.Prop, Name: name, Eval: func(batch []C, o *Obs) error {
+		reps := 3
+		if os.Getenv("VERIF_REPLAY") != "" {
+			reps = 300
+		}
+		for rep := 0; rep < reps; rep++ {
+			errs := make([]error, len(batch))
+			var wg sync.WaitGroup
+			start := make(chan struct{})
+			for i := range batch {
+				i := i
+				wg.Add(1)
+				go func() {
+					defer wg.Done()
+					<-start
+					errs[i] = safeEval(k.Eval, batch[i], &Obs{})
+				}()
+			}
+			close(start)
+			wg.Wait()
+			for i, e := range errs {
+				if e == nil {
+					continue
+				}
+				var hb harnessBug
+				if errors.As(e, &hb) {
+					return e
+				}
+				if seq := safeEval(k.Eval, batch[i], &Obs{}); seq != nil {
+					return fmt.Errorf("case %d of the batch fails on its own: %v", i, seq)
+				}
+				return fmt.Errorf("case %d of a batch of %d passes on its own but fails while the other cases are evaluated concurrently (state shared between calls): %v",
+					i, len(batch), e)
+			}
+		}
+		return nil
+	}})
+	concurrentKinds[k.Prop+"/"+name] = bk
+	return bk
+}
+
 // ---------------------------------------------------------------------------------
 // test scaffolding
 
